@@ -53,6 +53,7 @@ type File struct {
 	Module          string                    `json:"module"`
 	Language        *Language                 `json:"language,omitempty"`
 	Source          *Source                   `json:"source,omitempty"`
+	Description     string                    `json:"description,omitempty"`
 	Deps            map[string]*Dep           `json:"deps,omitempty"`
 	Custom          map[string]map[string]any `json:"custom,omitempty"`
 	versions        []module.Version
